@@ -40,15 +40,15 @@ func (v Val) String() string {
 	return fmt.Sprintf("%s(%s)", v.K, v.S)
 }
 
-func iv(n int64) Val      { return Val{K: "Integer", S: strconv.FormatInt(n, 10)} }
-func dv(s string) Val     { return Val{K: "Decimal", S: s} }
-func sv(s string) Val     { return Val{K: "String", S: s} }
-func bv(b bool) Val       { return Val{K: "Boolean", S: strconv.FormatBool(b)} }
-func qv(s, u string) Val  { return Val{K: "Quantity", S: s, U: u} }
-func fv(k, s string) Val  { return Val{K: "fhir." + k, S: s} }
-func dateV(s string) Val  { return Val{K: "Date", S: s} }
-func dtV(s string) Val    { return Val{K: "DateTime", S: s} }
-func timeV(s string) Val  { return Val{K: "Time", S: s} }
+func iv(n int64) Val     { return Val{K: "Integer", S: strconv.FormatInt(n, 10)} }
+func dv(s string) Val    { return Val{K: "Decimal", S: s} }
+func sv(s string) Val    { return Val{K: "String", S: s} }
+func bv(b bool) Val      { return Val{K: "Boolean", S: strconv.FormatBool(b)} }
+func qv(s, u string) Val { return Val{K: "Quantity", S: s, U: u} }
+func fv(k, s string) Val { return Val{K: "fhir." + k, S: s} }
+func dateV(s string) Val { return Val{K: "Date", S: s} }
+func dtV(s string) Val   { return Val{K: "DateTime", S: s} }
+func timeV(s string) Val { return Val{K: "Time", S: s} }
 
 // isSystem reports whether the value is a System value (not an element).
 func (v Val) isSystem() bool { return !strings.Contains(v.K, ".") }
@@ -224,11 +224,11 @@ func quoteFP(s string) string {
 
 type temporal struct {
 	Y, M, D, h, m, s int
-	frac           string // fraction digits as written ("" = none)
-	prec           int    // 0 year 1 month 2 day 3 hour 4 minute 5 second 6 fraction
-	hasOff         bool
-	off            int // minutes east of UTC
-	z              bool
+	frac             string // fraction digits as written ("" = none)
+	prec             int    // 0 year 1 month 2 day 3 hour 4 minute 5 second 6 fraction
+	hasOff           bool
+	off              int // minutes east of UTC
+	z                bool
 }
 
 func parseTemporalDate(s string) (t temporal, rest string, err error) {
@@ -686,7 +686,9 @@ func temporalEqual(a, b string, isTime bool) (bool, string) { return temporalEqu
 
 // temporalEqualSys: for System values seconds and fractions are one precision (a
 // second-precision layout prints no fraction when it is zero).
-func temporalEqualSys(a, b string, isTime bool) (bool, string) { return temporalEqualP(a, b, isTime, 5) }
+func temporalEqualSys(a, b string, isTime bool) (bool, string) {
+	return temporalEqualP(a, b, isTime, 5)
+}
 
 func temporalEqualP(a, b string, isTime bool, finest int) (bool, string) {
 	pa, ea := parseAnyTemporal(a, isTime)
@@ -761,7 +763,6 @@ func parseAnyTemporal(s string, isTime bool) (temporal, error) {
 	return t, nil
 }
 
-
 // c13GoType15 names the System type of an item (or its FHIR message name).
 func c13GoType15(x any) string {
 	if a, ok := x.(system.Any); ok {
@@ -783,13 +784,11 @@ func sortedKeys(m map[string]any) []string {
 	return ks
 }
 
-
 func renderItems(xs []any) string {
 	c := make(system.Collection, len(xs))
 	copy(c, xs)
 	return clip(renderColl(c), 500)
 }
-
 
 func itemID(x any) string {
 	if m, ok := x.(proto.Message); ok {
@@ -797,4 +796,3 @@ func itemID(x any) string {
 	}
 	return renderItem(x)
 }
-
